@@ -376,6 +376,7 @@ fn scenario<H: ArchH>(rep: &mut Report, p: &mut Prng, arch: Arch, id: u64) {
     let mut chain = Vec::new();
     let text_off = 0x1000u64;
     let mut start = 0u64;
+    let mut ends_in_call_at: Option<usize> = None;
     for d in 0..=depth {
         let innermost = d == depth;
         // the root ends a frame pointer chain: frame pointer shape with a null record
@@ -387,12 +388,40 @@ fn scenario<H: ArchH>(rep: &mut Report, p: &mut Prng, arch: Arch, id: u64) {
             *p.pick(&[Shape::FramePointer, Shape::Frameless, Shape::FramePointer])
         };
         let n_calls = if innermost { if shape == Shape::Leaf { 0 } else { p.below(2) as usize } } else { 1 + p.below(2) as usize };
-        let mut f = gen_func(p, arch, shape, false, start, n_calls, false);
+        // one caller may end in a call to a function that does not return: its return address
+        // is the first byte of whatever follows the function
+        let ends_in_call = !innermost && ends_in_call_at.is_none() && p.chance(1, 4);
+        let mut f = gen_func(p, arch, shape, false, 0, n_calls, ends_in_call);
         macho_flavour(&mut f);
-        start += f.len();
-        let sel = if innermost { 0 } else { p.below(f.calls.len() as u64) as usize };
+        let sel = if innermost {
+            0
+        } else if ends_in_call {
+            ends_in_call_at = Some(funcs.len());
+            f.calls.len() - 1
+        } else {
+            p.below(f.calls.len() as u64) as usize
+        };
         chain.push((funcs.len(), sel));
         funcs.push(f);
+    }
+    // text order: call order, or with the function that ends in a call placed last (directly
+    // before __stubs), or shuffled
+    let mut order: Vec<usize> = (0..funcs.len()).collect();
+    match (ends_in_call_at, p.below(3)) {
+        (Some(k), 0) | (Some(k), 1) => {
+            order.retain(|x| *x != k);
+            order.push(k);
+        }
+        (_, 2) => {
+            for i in (1..order.len()).rev() {
+                order.swap(i, p.below(i as u64 + 1) as usize);
+            }
+        }
+        _ => {}
+    }
+    for &k in &order {
+        funcs[k].start = start;
+        start += funcs[k].len();
     }
     let any_pac = funcs.iter().any(|f| f.pac);
     let mask = if arch == Arch::A64 && (any_pac || p.chance(1, 3)) { u64::MAX >> 16 } else { u64::MAX };
@@ -411,8 +440,8 @@ fn scenario<H: ArchH>(rep: &mut Report, p: &mut Prng, arch: Arch, id: u64) {
     // unwind info entries: one per function, optionally merging neighbours with equal opcodes;
     // functions that cannot be expressed as an opcode defer to DWARF
     let mut text: Vec<u8> = Vec::new();
-    for f in &funcs {
-        text.extend_from_slice(&f.bytes());
+    for &k in &order {
+        text.extend_from_slice(&funcs[k].bytes());
     }
     let use_dwarf_for: Vec<bool> = funcs.iter().map(|f| opcode_for(arch, f).is_none() || p.chance(1, 6)).collect();
     let mut fdes = Vec::new();
@@ -425,7 +454,8 @@ fn scenario<H: ArchH>(rep: &mut Report, p: &mut Prng, arch: Arch, id: u64) {
     let eh_probe = cfi::write_eh_frame(arch, &fdes, PtrEnc::Abs8, base_svma + EH_FRAME_OFFSET, base_svma, 1);
     let merge = p.chance(1, 2);
     let mut entries: Vec<(u32, u32)> = Vec::new();
-    for (i, f) in funcs.iter().enumerate() {
+    for &i in &order {
+        let f = &funcs[i];
         let op = if use_dwarf_for[i] {
             let off = eh_probe.fde_offsets.iter().find(|(s, _)| *s == base_svma + text_off + f.start).unwrap().1 as u32;
             (if arch == Arch::X64 { 0x0400_0000 } else { 0x0300_0000 }) | off
@@ -489,6 +519,7 @@ fn scenario<H: ArchH>(rep: &mut Report, p: &mut Prng, arch: Arch, id: u64) {
                     model_out: String::new(),
                 });
             }
+            crate::hist::fresh_cache_twin(rep, &w, &o, &ans, || format!("{}\n{line}", lines.join("\n")));
             lines.push(line);
             cmds.push(cmd);
             impl_outs.push(ans.clone());
@@ -605,10 +636,14 @@ fn scenario<H: ArchH>(rep: &mut Report, p: &mut Prng, arch: Arch, id: u64) {
                 let nx = &truth.frames[i + 1];
                 let ok = ans.starts_with(&format!("frame:{} ", hex(nx.addr & mask))) && sp_fp_of(arch, &ans) == Some((nx.mach.sp, nx.mach.fp));
                 if !ok {
+                    // a return address that is the first byte of the next function / of __stubs
+                    // must still be looked up in the function that made the call (C13)
+                    let rel = (fr.addr & mask).wrapping_sub(base_avma);
+                    let at_boundary = i > 0 && (mspec.entries.iter().any(|e| e.0 as u64 == rel) || rel == stubs.0 as u64 || rel == helper.0 as u64);
                     rep.add_finding(Finding {
-                        props: vec!["C02".into()],
+                        props: if at_boundary { vec!["C02".into(), "C13".into()] } else { vec!["C02".into()] },
                         kind: "oracle".into(),
-                        key: format!("macho-{}-step-differs-from-true-caller-state", arch.name()),
+                        key: if at_boundary { format!("macho-{}-return-address-at-boundary-unwound-with-the-wrong-function", arch.name()) } else { format!("macho-{}-step-differs-from-true-caller-state", arch.name()) },
                         what: format!("the caller is at {:#x} with sp={:#x} fp={:#x}", nx.addr & mask, nx.mach.sp, nx.mach.fp),
                         case: lines.join("\n"),
                         impl_out: ans.clone(),
@@ -686,7 +721,7 @@ fn scenario<H: ArchH>(rep: &mut Report, p: &mut Prng, arch: Arch, id: u64) {
 /// A random opcode of every kind either architecture distinguishes.
 fn random_opcode(p: &mut Prng, fde_offsets: &[u64]) -> u32 {
     let flags = (p.below(4) as u32) << 30 | if p.chance(1, 8) { (p.below(4) as u32) << 28 } else { 0 };
-    let body: u32 = match p.below(14) {
+    let body: u32 = match p.below(16) {
         0 => 0,
         1 => 0x0100_0000 | (p.next() as u32 & 0x7fff),
         2 => 0x0200_0000 | (1 << 16),
@@ -703,6 +738,11 @@ fn random_opcode(p: &mut Prng, fde_offsets: &[u64]) -> u32 {
         }
         9 => 0x0400_0000 | (p.next() as u32 & 0xfff),
         10 => ((5 + p.below(11)) as u32) << 24,
+        12 | 13 if !fde_offsets.is_empty() => {
+            // defers to an FDE that exists (x86-64 mode 4 / arm64 mode 3)
+            let off = fde_offsets[p.below(fde_offsets.len() as u64) as usize];
+            (if p.chance(1, 2) { 0x0400_0000 } else { 0x0300_0000 }) | off as u32
+        }
         11 => {
             // a well-formed frameless entry: 1-6 distinct saved registers in any order (rbp at
             // any position), a frame that holds them
@@ -757,20 +797,23 @@ pub fn gen_random_macho(p: &mut Prng, arch: Arch) -> (ModSpec, Vec<u64>) {
         (Arch::X64, 1) => (0x40_0000u64, 0xffff_ff80_0020_0000u64),
         _ => (base_avma, base_svma),
     };
+    // a quarter of the modules defer every function to DWARF, with random (often not
+    // cacheable) rows: the NeedDwarf path with the generic evaluator
+    let focus_dwarf = p.chance(1, 4);
     let mut fdes: Vec<FdeSpec> = Vec::new();
     for f in &funcs {
-        if p.chance(1, 2) {
+        if !focus_dwarf && p.chance(1, 2) {
             continue;
         }
         fdes.push(FdeSpec {
             start: base_svma + text_off + f.start,
             len: f.len(),
-            rows: if p.chance(1, 3) { vec![(0, crate::gen::gen_row(p, arch))] } else { f.fde_rows() },
+            rows: if focus_dwarf || p.chance(1, 3) { vec![(0, crate::gen::gen_row(p, arch))] } else { f.fde_rows() },
             eval_fails: false,
             pac: f.pac,
         });
     }
-    let with_eh = !fdes.is_empty() && p.chance(5, 6);
+    let with_eh = !fdes.is_empty() && (focus_dwarf || p.chance(5, 6));
     let eh_probe = cfi::write_eh_frame(arch, &fdes, PtrEnc::Abs8, base_svma + EH_FRAME_OFFSET, base_svma, 1);
     let offs: Vec<u64> = eh_probe.fde_offsets.iter().map(|x| x.1).collect();
     let mut entries: Vec<(u32, u32)> = Vec::new();
@@ -780,7 +823,13 @@ pub fn gen_random_macho(p: &mut Prng, arch: Arch) -> (ModSpec, Vec<u64>) {
             continue; // covered by the previous entry
         }
         let a = (text_off + f.start) as u32 + if i == 0 { first_gap } else { 0 };
-        entries.push((a, random_opcode(p, &offs)));
+        let op = if focus_dwarf && p.chance(3, 4) {
+            let fde_off = eh_probe.fde_offsets.iter().find(|(s, _)| *s == base_svma + text_off + f.start).map(|x| x.1).unwrap_or(0);
+            (if arch == Arch::X64 { 0x0400_0000u32 } else { 0x0300_0000 }) | fde_off as u32
+        } else {
+            random_opcode(p, &offs)
+        };
+        entries.push((a, op));
     }
     let text_end = (text_off + start) as u32;
     let stubs = match p.below(3) {
@@ -852,6 +901,7 @@ fn random_history<H: ArchH>(rep: &mut Report, p: &mut Prng, arch: Arch, id: u64)
     let mut lines = vec![w.init_line(0, n_slots)];
     let mut impl_outs = vec!["ok".to_string()];
     let mut cmds = vec!["init".to_string()];
+    let with_iter = p.chance(1, 2);
     let mut run_op = |w: &mut World<H>, rep: &mut Report, o: Op| {
         let idx = lines.len() as u64;
         let line = o.line(idx);
@@ -867,6 +917,39 @@ fn random_history<H: ArchH>(rep: &mut Report, p: &mut Prng, arch: Arch, id: u64)
                 impl_out: "panic".into(),
                 model_out: String::new(),
             });
+        }
+        // C06 (only in histories without iterator walks: a walk looks up whatever return
+        // addresses the random stack holds, so the "each lookup address is used as one kind of
+        // frame" premise of the property cannot be guaranteed there)
+        if !with_iter {
+            crate::hist::fresh_cache_twin(rep, w, &o, &ans, || format!("{}\n{line}", lines.join("\n")));
+        }
+        // C04: a first frame at an address of the module that `__unwind_info` does not cover
+        // (before the first entry / at or after the end marker) and that is not in a stub
+        // section is a frameless leaf
+        if let Op::Unwind { is_ra: false, addr, regs, mem, .. } = &o {
+            if let DataSpec::Macho(ms) = &m.data {
+                let rel = addr.wrapping_sub(m.base_avma);
+                let inside = |r: &Option<(u32, u32)>| r.map(|(a, e)| (a as u64) <= rel && rel < e as u64).unwrap_or(false);
+                let first = ms.entries.first().map(|e| e.0 as u64).unwrap_or(0);
+                let last = ms.entries.last().map(|e| e.0 as u64).unwrap_or(0);
+                if *addr >= m.start && *addr < m.end && (rel < first || rel >= last) && !inside(&ms.stubs) && !inside(&ms.stub_helper) {
+                    let expect = crate::hist::leaf_outcome(regs, mem);
+                    let got: String = ans.split(' ').filter(|t| !t.starts_with("stats=") && !t.starts_with("t=")).collect::<Vec<_>>().join(" ");
+                    rep.count("macho uncovered first frames");
+                    if expect != got {
+                        rep.add_finding(Finding {
+                            props: vec!["C04".into()],
+                            kind: "oracle".into(),
+                            key: format!("macho-{}-uncovered-first-frame-not-a-leaf", arch.name()),
+                            what: format!("the pc lies in a Mach-O module but outside everything __unwind_info covers and outside the stub sections: a first frame there is a frameless leaf, expected {expect}"),
+                            case: format!("{}\n{line}", lines.join("\n")),
+                            impl_out: got,
+                            model_out: String::new(),
+                        });
+                    }
+                }
+            }
         }
         lines.push(line);
         cmds.push(cmd);
@@ -888,10 +971,34 @@ fn random_history<H: ArchH>(rep: &mut Report, p: &mut Prng, arch: Arch, id: u64)
         let addr = if is_ra { la.wrapping_add(1) } else { la };
         let regs = crate::gen::gen_regs(p, arch, addr);
         let mem = crate::gen::gen_mem(p, &regs);
-        if p.chance(1, 6) {
+        if with_iter && p.chance(1, 6) {
             run_op(&mut w, rep, Op::Iter { u: "u0".into(), c: "c0".into(), pc: addr, regs, mem, extra: 0, max: 12 });
         } else {
             run_op(&mut w, rep, Op::Unwind { u: "u0".into(), c: "c0".into(), is_ra, addr, regs, mem });
+        }
+    }
+    // the same call repeated on the same cache: first with a thread state in which every stack
+    // read fails, then twice with readable stacks (what a failed or a lucky first call leaves in
+    // the cache must not change what the later ones return - C06)
+    if !with_iter {
+        for _ in 0..4 {
+            let rel = *p.pick(&addrs);
+            let want_ra = p.chance(1, 3);
+            let la = if want_ra { (base_avma + rel).wrapping_sub(1) } else { base_avma + rel };
+            let is_ra = *kind.entry(la).or_insert(want_ra);
+            let addr = if is_ra { la.wrapping_add(1) } else { la };
+            let regs = crate::gen::gen_regs(p, arch, addr);
+            let failing = MemDesc::new(Dflt::Fail);
+            run_op(&mut w, rep, Op::Unwind { u: "u0".into(), c: "c0".into(), is_ra, addr, regs: regs.clone(), mem: failing });
+            for _ in 0..2 {
+                let regs = if p.chance(1, 2) { regs.clone() } else { crate::gen::gen_regs(p, arch, addr) };
+                let mut mem = crate::gen::gen_mem(p, &regs);
+                if mem.default == Dflt::Fail {
+                    mem.default = Dflt::Ident;
+                }
+                mem.cut = None;
+                run_op(&mut w, rep, Op::Unwind { u: "u0".into(), c: "c0".into(), is_ra, addr, regs, mem });
+            }
         }
     }
     drop(run_op);
